@@ -120,7 +120,9 @@ func longTask(name, log, sleepTag string, sc cancelScenario) *task.Task {
 		// the cancellation arrives while the task's condition is being evaluated, by a program that answers an interrupt
 		// with an exit status of its own: the task was interrupted before it ran anything - not "skipped, fine"
 		// (the condition would go on for 30 s: it is one of "the commands that are running", the cancellation ends it)
-		t.Condition = fmt.Sprintf("echo start-%s >> %s; sh -c 'sleep %s & p=$!; trap \"kill $p; exit 3\" INT; wait $p'", name, log, sleepTag)
+		// (the start marker is written once the trap is in place: an interrupt that arrives earlier would kill the shell
+		// and leave the sleep behind, holding the output pipe - the known finding about grandchildren, not this scenario)
+		t.Condition = fmt.Sprintf("sh -c 'trap \"kill \\$p; exit 3\" INT; sleep %s & p=$!; echo start-%s >> %s; wait $p'", sleepTag, name, log)
 		t.Commands = []string{fmt.Sprintf("echo cmd-%s >> %s", name, log)}
 	case "in-before-hook":
 		t.Before = []string{body}
@@ -762,9 +764,9 @@ func condVerdictCases(col *Collector) {
 		case !v.cancelled && v.end == "nonzero":
 			body = "exit 3"
 		case v.cancelled && v.end == "killed":
-			body = fmt.Sprintf("echo x > %s; trap '' INT; exec sleep %s", marker, tag)
+			body = fmt.Sprintf("trap '' INT; echo x > %s; exec sleep %s", marker, tag)
 		case v.cancelled:
-			body = fmt.Sprintf("echo x > %s; sleep %s & p=$!; trap \"kill $p; exit %s\" INT TERM; wait $p", marker, tag, map[string]string{"zero": "0", "nonzero": "3"}[v.end])
+			body = fmt.Sprintf("trap \"kill \\$p; exit %s\" INT TERM; sleep %s & p=$!; echo x > %s; wait $p", map[string]string{"zero": "0", "nonzero": "3"}[v.end], tag, marker)
 		}
 		r, err := runner.NewTaskRunner()
 		if err != nil {
